@@ -302,6 +302,7 @@ def mse_loss(y_pred:Tensor, y_true:Tensor):
             raise RuntimeError(f"{grad_output.device} not supported")
         
         if y_pred.requires_grad: y_pred._grad += loss_grad_data
+        if y_true.requires_grad: y_true._grad += -loss_grad_data # (a-b)**2 is symmetric up to sign
     
     if loss.requires_grad: loss.grad_fn = BackwardFunction(backward, loss._operation)
     
